@@ -43,12 +43,14 @@ pub struct Gen {
     pub end_all:       bool,
     /// an extra thread calls gracefully_end_stream() on one consumer's stream at a generated point
     pub end_one:       bool,
+    /// producers keep reservations outstanding, send them oldest-first and cancel them newest-first (kinds implementing the API)
+    pub reserve_ops:   bool,
 }
 
 impl Default for Gen {
     fn default() -> Self {
         Gen { kinds: &UNI_KINDS, max_streams: &[1, 2, 4], buffers: &[2, 4, 8], max_producers: 3, max_ops: 3, max_consumers: 3, retry: false, fresh_wakers: false,
-              origins: false, prefill: false, canceller: false, churn: false, handles: false, async_ops: false, min_consumers: 1, drop_on_end: false, end_all: false, end_one: false }
+              origins: false, prefill: false, canceller: false, churn: false, handles: false, async_ops: false, min_consumers: 1, drop_on_end: false, end_all: false, end_one: false, reserve_ops: false }
     }
 }
 
@@ -124,6 +126,7 @@ pub fn case_strategy(g: Gen) -> BoxedStrategy<ChanCase> {
                 ops.push((1, Just(POp::Len).boxed()));
                 if kind.has_reserve() { ops.push((1, Just(POp::Reserve).boxed())); ops.push((1, Just(POp::SendOldestReserved).boxed())); }
             }
+            if g.reserve_ops && kind.has_reserve() { ops.push((5, Just(POp::Reserve).boxed())); ops.push((4, Just(POp::SendOldestReserved).boxed())); ops.push((3, Just(POp::CancelNewestReserved).boxed())); }
             let op = proptest::strategy::Union::new_weighted(ops);
             let mut producers = vec(vec(op, 1..=g.max_ops), 1..=g.max_producers).boxed();
             if g.canceller {
